@@ -14,7 +14,7 @@ fn equivalence(tier: Tier, st: &mut Stats) {
     let mut big = crate::universe::u_big(tier);
     big.retain(|u| u.dict.user.is_some());
     us.extend(big);
-    let max_len = tier.pick(4, 5);
+    let max_len = tier.pick(4, 6);
     // richer user menus on top of the universe's own
     let extra_users: Vec<Vec<Row>> = vec![
         vec![row("a", 1, 1, 30, "user-homograph-of-a"), row("abcab", 1, 1, -300, "user-long"), row("b", 1, 1, 32767, "user-max"), row("c", 1, 1, -32768, "user-min")],
@@ -148,7 +148,7 @@ fn equivalence(tier: Tier, st: &mut Stats) {
 /// (b) load / replace / clear histories.
 fn histories(tier: Tier, st: &mut Stats) {
     let fams = family_d(tier);
-    let depth = tier.pick(3, 4);
+    let depth = tier.pick(3, 5);
     let sent_len = tier.pick(4, 5);
     let mut tasks = vec![];
     for (fi, f) in fams.iter().enumerate() {
@@ -319,7 +319,7 @@ pub fn run(tier: Tier) -> i32 {
     histories(tier, &mut st);
     validation(tier, &mut st);
     rep.rule = "(a) state = (lexicon/cost dictionary with a user lexicon from a menu of 3, option setting, sentence); the lattice candidates and the optimal cost must equal those of the dictionary whose system lexicon is extended by the same rows; (b) state = history over {load U1, load U2, clear} (optionally on a mapped dictionary): full observation table must equal that of the canonical history (fresh + last loaded / nothing); (c) every user row with ids in {0, n-1, n, n+1, 65535}^2 and 8 malformed CSVs in 5 contexts (unmapped, mapped, mapped twice, reloaded): Ok iff in range, else Err, never a panic; distinct = distinct observation tables / outcome classes".into();
-    rep.bounds = json!({"sentence_len": tier.pick(5, 6), "history_depth": tier.pick(3, 4)});
+    rep.bounds = json!({"sentence_len": tier.pick(4, 6), "history_depth": tier.pick(3, 5)});
     rep.finish(
         st,
         &[
